@@ -792,6 +792,12 @@ func conv(t_dst, t_src types.Type, x value) value {
 					if ex.Branch(isASCII) {
 						return mkStr([]value{mkVal(types.Uint8, Extract(s.t, 0, 8))})
 					}
+					if w == 8 && !kindSigned(s.k) {
+						// 0x80..0xFF: two-byte UTF-8 encoding, kept symbolic
+						hi := Bin(OBOr, BV(8, 0xC0), Bin(OLShr, s.t, BV(8, 6)))
+						lo := Bin(OBOr, BV(8, 0x80), Bin(OBAnd, s.t, BV(8, 0x3F)))
+						return mkStr([]value{mkVal(types.Uint8, hi), mkVal(types.Uint8, lo)})
+					}
 				}
 				n := asInt64(x)
 				if n < 0 || n > utf8.MaxRune {
